@@ -64,11 +64,15 @@ def run(ctx):
         "handlePrivateTxRetry), gossip/manager.go+queue.go, the decisions of dag/state.go Add/XOR/IBLT/FindBetweenLC/Read/WritePayload",
     ]
     ctx.assumptions += [
-        "liveness is relative to: the IBLT decode contract DC (a successful decode returns exactly the refs the peer has and we lack; decode succeeds on an "
-        "empty difference), XOR digests distinguishing the sets that occur, and fairness (gossip ticks followed by loss-free rounds in each direction, "
-        "conversations that lost a message expiring)",
-        "handlers are atomic (the real dispatcher runs them on goroutines; serialisation of concurrent Adds is C06's claim); gRPC back-pressure "
-        "(`channel full` drops) is modelled as loss; a transaction ref identifies the transaction (SHA-256)",
+        "safety (safety_any_schedule, unsolicited_responses_change_no_dag) is unconditional: any schedule, any decode/sort/ECIES oracle behaviour; part (c) "
+        "(DAGs stay inside U) assumes the adversary cannot show a good-verdict transaction outside U (signatures unforgeable) and that sort returns elements of its input",
+        "liveness (pull_round_result, round_progress, converges) is relative to explicit hypotheses of the theorems: the IBLT decode contract DC (successful decode = exactly "
+        "the refs the peer has and we lack; decode succeeds on an empty difference; measured on the real tree.Iblt: histogram in coverage), the sort contract (clock-sorted "
+        "permutation), XOR digests distinguishing the valid DAGs inside the union, refs identifying transactions, both nodes holding the root, every public transaction "
+        "stored with a non-empty payload, gossip queues in sync with the DAG, and fairness in the form of fair round pairs (expiry of stale conversations, then a loss-free "
+        "pull in each direction with the reconciliation messages of each batch delivered in the order sent; payload queries may stay in flight)",
+        "handlers are atomic (the real dispatcher runs them on goroutines; serialisation of concurrent Adds is C06's claim); gRPC back-pressure (`channel full` drops) is "
+        "modelled as loss; two nodes (the n-node corollary is not proved; 3-node groups are exercised by the harness in the thorough tier)",
     ]
 
     binary = ctx.go_test_binary(PKG, HARNESS, "c07")
@@ -80,7 +84,7 @@ def run(ctx):
     if ctx.replay:
         env["VERIF_REPLAY"] = os.path.abspath(ctx.replay)
     else:
-        env["VERIF_SCENARIOS"] = 140 if ctx.thorough else 30
+        env["VERIF_SCENARIOS"] = 110 if ctx.thorough else 30
     rc, log, out = ctx.run_harness(binary, "TestVerifC07", env, timeout=3000)
     if rc != 0:
         ctx.oblige("harness-runs", False, log[-1500:])
